@@ -35,6 +35,7 @@ SIG = {
     'pdur_int': 'C14:pdur_int_delta_truncated',
     'scale_key': 'C14:explicit_scale_key_unusable',
     'scale_tuning': 'C14:scale_discards_tuning_octave_ratio',
+    'pdelta_input': 'C14:pdelta_stale_input_event',
 }
 HEADER = ('From Coq Require Import ZArith QArith List Bool String. Import ListNotations.\n'
           'Require Import SC3.lib.PyNum SC3.model.TaskQ SC3.model.Event.\nOpen Scope string_scope. Open Scope list_scope.\n')
@@ -48,6 +49,7 @@ def fq(s):
 
 
 def pnum(v):
+    if v[0] == 'B': return '(I %s)' % cz(1 if v[1] else 0)
     if v[0] == 'I': return '(I %s)' % cz(v[1])
     if v[0] in ('F', 'R'): return '(F %s)' % fq(v[1])
     raise ValueError(v)
@@ -66,6 +68,7 @@ def pval(v, cfg='patched'):
     if k == 'R': return '(VRest %s)' % pnum(v)
     if k == 'S': return '(VSym "%s")' % v[1]
     if k == 'B': return '(VBool %s)' % fw.cbool(v[1])
+    if k == 'N': return 'VNone'
     if k == 'SC': return '(scale_key %s %s)' % (cfg, pscale(v[1], cfg))
     raise ValueError(v)
 
@@ -131,7 +134,7 @@ def encodable(msgs):
         if m.get('odd'): return False
         if m['cmd'] == 's_new' and m['group'][0] not in ('I', 'F'): return False
         for _, v in m.get('params', []):
-            if v[0] not in ('I', 'F'): return False
+            if v[0] not in ('I', 'F', 'B'): return False
     return True
 
 
@@ -140,11 +143,36 @@ def item_keys(case, res, cfg):
     if case.get('scale') is not None:
         ev['scale'] = ['SC', case['scale']]
     asked = []
+    holes = {n for n, rows in res['tables'].items() if any(b is None for _, b in rows)}
+    skip = set()
+    if holes & {'midicps', 'cpsmidi'}: skip |= {'freq', 'midinote', 'note', 'degree'}     # a kernel left its domain (log of 0, overflow)
+    if holes & {'dbamp', 'ampdb'}: skip |= {'amp', 'db', 'velocity'}
     for k, v in zip(case['ask'], res['vals']):
+        if k in skip:
+            continue
         if v[0] in ('I', 'F'): asked.append('("%s", 0%%nat, %s)' % (k, pnum(v)))
         elif v[0] == 'R': asked.append('("%s", 1%%nat, %s)' % (k, pnum(v)))
         elif v[0] == 'E': asked.append('("%s", 0%%nat, NErr)' % k)
+        elif v[0] == 'B': asked.append('("%s", 2%%nat, %s)' % (k, pnum(v)))
+        elif v[0] == 'N': asked.append('("%s", 3%%nat, (I 0%%Z))' % k)
     return 'keys_ok %s %s [%s]' % (pkern(res['tables']), pevent(ev, cfg), '; '.join(asked))
+
+
+def pctl(case):
+    """the controller's operations as the model's ctl"""
+    import math
+    ops = case.get('ctl')
+    if not ops:
+        return 'CNone'
+    if ops[0][0] == 'stop':
+        return '(CStop %s)' % fq(ops[0][1])
+    t2 = Fraction(ops[1][1])
+    if case.get('clock') == 'tempo':
+        # EventStreamPlayer.resume -> TempoClock.play(self, quant=None): the default quant of a TempoClock is 1, the
+        # player resumes on the next whole beat of its clock (created at `start`, tempo 1)
+        st = Fraction(case.get('start', '0/1'))
+        t2 = st + math.ceil(t2 - st)
+    return '(CPause %s %s)' % (fq(ops[0][1]), cq(t2))
 
 
 def item_pat(case, res, cfg):
@@ -152,8 +180,9 @@ def item_pat(case, res, cfg):
     proto = pevent(case.get('proto', {}))
     if case.get('proto_event') and case.get('proto'):
         proto = '(as_event %s)' % proto
-    return 'pat_ok %s %s the_lib %s %d %d %s %s %s [%s]' % (
-        cfg, pkern(res['tables']), fq(case.get('latency', '0/1')), FUEL, DEPTH, ppat(case['pat']), proto,
+    return 'pat_ok_c %s %s the_lib %s %d %d %s %s %s %s [%s]' % (
+        cfg, pkern(res['tables']), fq(case.get('latency', '0/1')), FUEL, DEPTH, pctl(case),
+        ppat(case.get('pat_model', case['pat'])), proto,
         fq(case.get('start', '0/1')), '; '.join(pbundle(m) for m in msgs))
 
 
@@ -230,10 +259,32 @@ def gen_keys_case(rng):
     return case
 
 
+ZERO_KEYS = ['degree', 'note', 'midinote', 'mtranspose', 'gtranspose', 'root', 'octave', 'ctranspose', 'harmonic', 'detune',
+             'amp', 'db', 'velocity', 'dur', 'stretch', 'legato', 'delta', 'sustain', 'pan', 'out', 'trig']
+
+
+def gen_keys_zero_case(rng):
+    """falsy explicit values (0, 0.0, False, and None for the two keys whose class default is None) for every key of
+    every chain: an explicit zero is a given key, not a missing one"""
+    case = gen_keys_case(rng)
+    keys = case['keys']
+    for k in rng.sample(ZERO_KEYS, rng.randint(1, 4)):
+        z = rng.choice([I(0), F(0), ['B', False]])
+        if k in ('delta', 'sustain') and rng.random() < 0.3:
+            z = ['N']
+        keys[k] = z
+    if rng.random() < 0.3:
+        keys.pop('freq', None)
+    case['points'] = ref.points_for_keys(keys, case['scale'])
+    case['zero'] = True
+    return case
+
+
 DURS = [F('1/4'), F('1/2'), F(1), F('3/2'), F(2), I(1), I(2), F('3/4')]
+DURS0 = DURS + [F(0), I(0), F('2047/2048')]     # zero durations and one that ends inside Pdur's tolerance window
 
 
-def gen_kvs(rng, mono=False, infinite=False, rests=True):
+def gen_kvs(rng, mono=False, infinite=False, rests=True, edge=True, force_legato=False):
     n = rng.randint(1, 4)
     kvs = []
     if not mono:
@@ -245,8 +296,8 @@ def gen_kvs(rng, mono=False, infinite=False, rests=True):
 
     def durv():
         if rests and not mono and rng.random() < 0.12:
-            return R(rng.choice(['1/4', '1/2', '1', '2']))
-        return rng.choice(DURS)
+            return R(rng.choice(['1/4', '1/2', '1', '2', '0']))
+        return rng.choice(DURS0 if edge else DURS)
     if infinite:
         kvs.append(['dur', ['rep', rng.choice(DURS)]])
     elif r < 0.75:
@@ -256,22 +307,29 @@ def gen_kvs(rng, mono=False, infinite=False, rests=True):
     else:
         kvs.append(['dur', ['rep', rng.choice(DURS)]])
         kvs.append(['pan', seq(lambda: numval(rng, -1, 1))])
-    if rng.random() < 0.4: kvs.append(['legato', ['rep', rng.choice([F('1/2'), F(1), F('1/4'), F('3/2'), I(1)])]])
-    if rng.random() < 0.2: kvs.append(['stretch', ['rep', rng.choice([F(2), F('1/2'), I(2)])]])
-    if rng.random() < 0.15: kvs.append(['sustain', ['rep', rng.choice([F('1/8'), F(1), I(3)])]])
+    if not infinite and not any(x[0] == 'delta' for x in kvs) and rng.random() < 0.12:
+        kvs.append(['delta', seq(lambda: rng.choice([I(1), F('1/2'), F(1), F(0), I(0)]))])     # delta AND dur given
+    if rng.random() < 0.4 or force_legato:
+        kvs.append(['legato', ['rep', rng.choice([F('1/2'), F(1), F('1/4'), F('3/2'), I(1), F(0), I(0), ['B', False]])]])
+    if rng.random() < 0.2: kvs.append(['stretch', ['rep', rng.choice([F(2), F('1/2'), I(2)] + ([] if infinite else [F(0), I(0)]))]])
+    if rng.random() < 0.15: kvs.append(['sustain', ['rep', rng.choice([F('1/8'), F(1), I(3), F(0), I(0)])]])
     p = rng.random()
     if p < 0.3: kvs.append(['freq', seq(lambda: numval(rng, 50, 900), rng.randint(n, n + 2))])
     elif p < 0.45: kvs.append(['midinote', seq(lambda: numval(rng, 40, 90, 0.8), rng.randint(n, n + 2))])
     elif p < 0.6 and not mono: kvs.append(['degree', seq(lambda: (R(1) if rests and rng.random() < 0.1 else I(rng.randint(-7, 14))),
                                                            rng.randint(n, n + 2))])
-    for k, f, pr in (('pan', lambda: numval(rng, -1, 1), 0.3), ('amp', lambda: F(Fraction(rng.randint(1, 16), 16)), 0.3),
+    for k, f, pr in (('pan', lambda: numval(rng, -1, 1), 0.3), ('amp', lambda: rng.choice([F(Fraction(rng.randint(0, 16), 16)), I(0), ['B', False]]), 0.3),
                      ('cutoff', lambda: I(rng.randint(100, 5000)), 0.2), ('detune', lambda: numval(rng, 0, 4), 0.15),
                      ('harmonic', lambda: I(rng.randint(1, 3)), 0.15), ('out', lambda: I(rng.randint(0, 3)), 0.15),
-                     ('db', lambda: I(-6), 0.1)):
+                     ('db', lambda: rng.choice([I(-6), I(0), F(0)]), 0.1), ('velocity', lambda: rng.choice([I(0), I(64)]), 0.06),
+                     ('freq', lambda: rng.choice([I(0), F(0)]), 0.03), ('group', lambda: rng.choice([I(0), I(1), I(5)]), 0.12),
+                     ('node_id', lambda: rng.choice([I(0), I(7)]), 0.06),
+                     ('send_gate', lambda: ['B', rng.random() < 0.5], 0.1), ('has_gate', lambda: ['B', rng.random() < 0.5], 0.05)):
         if rng.random() < pr and not any(x[0] == k for x in kvs):
             kvs.append([k, ['rep', f()] if rng.random() < 0.5 else seq(f, rng.randint(n, n + 1))])
     if not mono and rng.random() < 0.15:
-        kvs.append(['add_action', ['rep', ['S', rng.choice(['addToTail', 'tail', 'addToHead', 'h', 'addAfter'])]]])
+        kvs.append(['add_action', ['rep', rng.choice([['S', 'addToTail'], ['S', 'tail'], ['S', 'addToHead'], ['S', 'h'], ['S', 'addAfter'],
+                                                      I(0), I(1), I(4)])]])
     rng.shuffle(kvs)
     return kvs
 
@@ -286,15 +344,18 @@ def gen_pat(rng, depth, st):
         return ['bind', gen_kvs(rng)]
     if r < 0.55:
         st2 = dict(st, in_par=True)
-        out = ['par', [gen_pat(rng, depth - 1, st2) for _ in range(rng.randint(1, 3))]]
+        out = ['par', [gen_pat(rng, depth - 1, st2) for _ in range(rng.choice([0, 1, 1, 2, 2, 2, 3, 3, 4]))]]
         st['mono_used'] = st['mono_used'] or st2['mono_used']
         return out
     if r < 0.7:
         a, b = gen_kvs(rng, rests=False), gen_kvs(rng)
-        return ['chain', [['bind', a], ['bind', b]] + ([['bind', gen_kvs(rng, rests=False)]] if rng.random() < 0.2 else [])]
+        first = ['bind', a]
+        if rng.random() < 0.3:      # the outer pattern delays itself: its input events are the inner pattern's outputs
+            first = ['delta', rng.choice([F('1/2'), F(1), I(1), F(0)]), first]
+        return ['chain', [first, ['bind', b]] + ([['bind', gen_kvs(rng, rests=False)]] if rng.random() < 0.2 else [])]
     if r < 0.82:
-        return ['delta', rng.choice([F('1/2'), F(1), I(1), F(0), F('1/4')]), gen_pat(rng, depth - 1, st)]
-    d = rng.choice([F('3/2'), F(1), I(2), F('5/4'), F(3), I(1), F('1/2')])
+        return ['delta', rng.choice([F('1/2'), F(1), I(1), F(0), I(0), F('1/4')]), gen_pat(rng, depth - 1, st)]
+    d = rng.choice([F('3/2'), F(1), I(2), F('5/4'), F(3), I(1), F('1/2'), F(0), I(0)])
     if rng.random() < 0.25:
         return ['dur', d, ['bind', gen_kvs(rng, infinite=True)]]
     # a Pmono cut by a Pdur nested in a Ppar is released only when the whole player ends (not modelled)
@@ -304,18 +365,105 @@ def gen_pat(rng, depth, st):
     return out
 
 
+def force_legato(t):
+    """every Pbind/Pmono gets an explicit dyadic legato (used when the proto event has none)"""
+    def fix(kvs):
+        if not any(k == 'legato' for k, _ in kvs):
+            kvs.append(['legato', ['rep', F('1/2')]])
+    if t[0] == 'bind': fix(t[1])
+    elif t[0] == 'mono': fix(t[2])
+    elif t[0] in ('chain', 'par'):
+        for c in t[1]: force_legato(c)
+    else: force_legato(t[2])
+
+
 def gen_pat_case(rng):
-    proto = {'legato': rng.choice([F('1/2'), F(1), F('1/4'), F('3/4')])}
+    proto = {'legato': rng.choice([F('1/2'), F(1), F('1/4'), F('3/4'), F(0)])}
     if rng.random() < 0.25: proto['amp'] = F('1/4')
     if rng.random() < 0.1: proto['stretch'] = rng.choice([F(2), F('1/2')])
     if rng.random() < 0.15: proto['instrument'] = ['S', 'c14c']
     pat = gen_pat(rng, rng.choice([0, 1, 1, 2, 2, 3]), {'under_dur': False, 'mono_used': False})
+    if rng.random() < 0.12:          # an EMPTY proto: `proto or dict()`, `inevent or dict()`, an empty NoteEvent is falsy
+        proto = {}
+        force_legato(pat)
     case = {'kind': 'pat', 'pat': pat, 'proto': proto, 'proto_event': rng.random() < 0.3,
             'latency': str(rng.choice([Fraction(0), Fraction(1, 4), Fraction(1, 2), Fraction(1, 8)])),
             'start': str(rng.choice([Fraction(0), Fraction(0), Fraction(1, 2), Fraction(3, 4), Fraction(2)])),
             'clock': rng.choice(['system', 'tempo'])}
     case['points'] = {'midicps': ref.midicps_points(pat, proto)}
     return case
+
+
+def gen_ctl_case(rng):
+    """a player stopped, or paused and resumed, from another routine at times off the event grid"""
+    while True:
+        case = gen_pat_case(rng)
+        if '2047/2048' not in json.dumps(case['pat']):
+            break
+    st = Fraction(case['start'])
+    t1 = st + Fraction(2 * rng.randint(0, 40) + 1, 16)
+    if rng.random() < 0.5:
+        case['ctl'] = [['stop', str(t1)]]
+    else:
+        case['ctl'] = [['pause', str(t1)], ['resume', str(t1 + Fraction(rng.randint(1, 40), 16))]]
+    return case
+
+
+def cut_kvs(kvs, k):
+    return [[key, (['seq', vs[1][:k]] if vs[0] == 'seq' else vs)] for key, vs in kvs]
+
+
+def gen_raise_case(rng):
+    """an event whose key function raises while it is played (midicps overflows for midinote 1e6): nothing of that
+    event is sent, the player ends there; the model plays the pattern cut before that event"""
+    n = rng.randint(1, 4)
+    k = rng.randrange(n)
+    kvs = [kv for kv in gen_kvs(rng, rests=False, edge=False, force_legato=True)
+           if kv[0] not in ('freq', 'midinote', 'degree', 'dur', 'delta')]
+    kvs.append(['dur', ['seq', [rng.choice(DURS) for _ in range(n)]]])
+    notes = [I(rng.randint(40, 90)) for _ in range(n)]
+    kvs_m = cut_kvs(kvs + [['midinote', ['seq', notes]]], k)
+    notes_i = list(notes)
+    notes_i[k] = ['BIG']
+    kvs_i = kvs + [['midinote', ['seq', notes_i]]]
+    wrap = rng.choice(['none', 'delta', 'chain', 'dur'])
+
+    def w(b):
+        if wrap == 'delta': return ['delta', F('1/2'), b]
+        if wrap == 'chain': return ['chain', [b, ['bind', [['pan', ['rep', I(1)]]]]]]
+        if wrap == 'dur': return ['dur', F(3), b]
+        return b
+    case = {'kind': 'pat', 'pat': w(['bind', kvs_i]), 'pat_model': w(['bind', kvs_m]), 'proto': {'legato': F('1/2')},
+            'proto_event': rng.random() < 0.3, 'latency': str(rng.choice([Fraction(0), Fraction(1, 4)])),
+            'start': str(rng.choice([Fraction(0), Fraction(1, 2)])), 'clock': rng.choice(['system', 'tempo']), 'raises': True}
+    case['points'] = {'midicps': ref.midicps_points(case['pat_model'], case['proto'])}
+    return case
+
+
+def has_kind(t, kind):
+    return ('"%s"' % kind) in json.dumps(t)
+
+
+def gen_alias_case(rng):
+    while True:
+        case = gen_pat_case(rng)
+        if not has_kind(case['pat'], 'mono'):        # a Pmono stream needs a player around it
+            break
+    return {'kind': 'alias', 'pat': case['pat'], 'proto': case['proto']}
+
+
+def gen_twice_group(rng, gid):
+    """the same pattern OBJECT played by two players: the score is the union of the two single plays"""
+    while True:
+        case = gen_pat_case(rng)
+        if '2047/2048' not in json.dumps(case['pat']):
+            break
+    tau = str(Fraction(rng.randint(0, 12), 4))
+    st = Fraction(case['start'])
+    a = dict(case, grp=gid, role='first')
+    b = dict(case, grp=gid, role='second', start=str(st + Fraction(tau)))
+    c = dict(case, grp=gid, role='both', twice=tau)
+    return [a, b, c]
 
 
 def bind(**kw):
@@ -340,6 +488,8 @@ def battery():
         (SIG['rest'], pc(bind(dur=[R(1), F(1)]))),
         (SIG['pdur_dict'], pc(['dur', F('3/2'), bind(dur=[F(1), F(1)])])),
         (SIG['pdur_int'], pc(['dur', F('3/2'), ['mono', 'c14b', [['delta', ['seq', [I(1), I(1)]]]]]])),
+        (SIG['pdelta_input'], pc(['chain', [['delta', F('1/2'), bind(dur=[F(1), F(1), F(1)])],
+                                            ['bind', [['pan', ['seq', [I(1), I(2), I(3), I(4)]]]]]]])),
         (SIG['scale_key'], kc({'degree': I(2)}, minor)),
         (SIG['scale_tuning'], {'kind': 'scale', 'scale': wide}),
         (SIG['scale_tuning'], kc({'degree': I(4)}, wide)),
@@ -353,8 +503,18 @@ def gen_cases(ctx):
     cases = [c for _, c in battery() if c['kind'] != 'scale']
     if os.path.exists(CORPUS):
         cases += json.load(open(CORPUS))
-    cases += [gen_keys_case(ctx.rng) for _ in range(ctx.n(500, 6000))]
-    cases += [gen_pat_case(ctx.rng) for _ in range(ctx.n(400, 5000))]
+    cases += [gen_keys_case(ctx.rng) for _ in range(ctx.n(400, 5000))]
+    cases += [gen_keys_zero_case(ctx.rng) for _ in range(ctx.n(200, 2000))]
+    pats = [gen_pat_case(ctx.rng) for _ in range(ctx.n(400, 5000))]
+    pats += [gen_ctl_case(ctx.rng) for _ in range(ctx.n(120, 1500))]
+    # raising events are interleaved with ordinary cases of the same process: state leaked by the failure would
+    # show in the cases that follow
+    for _ in range(ctx.n(40, 400)):
+        pats.insert(ctx.rng.randrange(len(pats)), gen_raise_case(ctx.rng))
+    cases += pats
+    cases += [gen_alias_case(ctx.rng) for _ in range(ctx.n(60, 600))]
+    for g in range(ctx.n(30, 300)):
+        cases += gen_twice_group(ctx.rng, g)
     return cases
 
 
@@ -364,6 +524,26 @@ def run_impl(ctx, cases):
     for i in range(0, len(cases), 4000):
         out += ctx.impl('c14_run', {'cases': cases[i:i + 4000]}, timeout=900)['out']
     return out
+
+
+def content(m):
+    return (Fraction(m['t']), m['cmd'], m.get('name', ''), tuple((k, Fraction(v[1]) if v[0] in ('I', 'F', 'B') else repr(v))
+                                                                  for k, v in m.get('params', [])))
+
+
+def twice_violation(g):
+    """score(both players) must be the union of the scores of each player alone, and every node consistent"""
+    both = g['both'][1]['msgs']
+    want = sorted(content(m) for m in g['first'][1]['msgs'] + g['second'][1]['msgs'])
+    have = sorted(content(m) for m in both)
+    if want != have:
+        d = next((i for i, (a, b) in enumerate(zip(want, have)) if a != b), min(len(want), len(have)))
+        return 'the score is not the union of the two single plays (entry %d: expected %s, got %s)' % (
+            d, want[d] if d < len(want) else None, have[d] if d < len(have) else None)
+    _, stale = canon_msgs(both)
+    if stale:
+        return 'node ids reused or unknown: %s' % stale
+    return None
 
 
 def tables_ok(res):
@@ -386,17 +566,42 @@ def correspond(ctx):
     c = Corr()
     cases = gen_cases(ctx)
     res = run_impl(ctx, cases)
-    keep, items = [], []
+    keep, items, groups = [], [], {}
     for k, r in zip(cases, res):
         if 'runner_error' in r:
             c.failures.append(Failure('correspondence', 'implementation runner could not run a case: ' + r['runner_error'],
                                       replay={'case': k}))
             continue
-        if not tables_ok(r) or (k['kind'] == 'pat' and not encodable(r['msgs'])):
+        if k['kind'] == 'alias':
+            c.count('alias-probe')
+            c.evaluations_extra = getattr(c, 'evaluations_extra', 0) + 1
+            if r['clean'] != r['mutated'] or not r['proto_unchanged']:
+                d = next((i for i, (a, b) in enumerate(zip(r['clean'], r['mutated'])) if a != b), None)
+                c.failures.append(Failure(
+                    'correspondence', 'mutating an event a stream has yielded (or the dict passed to it) changes what the stream '
+                    'yields later: first difference at event %s' % d, found_input=True, theorem='streams share no state with their outputs',
+                    replay={'case': k, 'unmutated_run': r['clean'][:d + 1 if d is not None else 3],
+                            'mutated_run': r['mutated'][:d + 1 if d is not None else 3], 'proto_unchanged': r['proto_unchanged']}))
+            elif len(r['clean']) > 2:
+                c.nontriv(('alias', k['pat']))
+            continue
+        if k.get('role') == 'both':
+            groups.setdefault(k['grp'], {})['both'] = (k, r)
+            continue
+        if k.get('role') in ('first', 'second'):
+            groups.setdefault(k['grp'], {})[k['role']] = (k, r)
+        if k['kind'] == 'pat' and (not tables_ok(r) or not encodable(r['msgs'])):
             c.count('cases:skipped(kernel out of domain or non-numeric argument)')
             continue
+        if k['kind'] == 'pat' and not r.get('proto_unchanged', True):
+            c.failures.append(Failure('correspondence', 'playing a pattern changed the proto dict given to Pattern.play',
+                                      found_input=True, replay={'case': k}))
         if k['kind'] == 'keys':
             c.count('keys:' + '+'.join(sorted(x for x in k['keys'] if x in ('degree', 'note', 'midinote', 'freq'))) or 'keys:none')
+            if k.get('zero'):
+                for kk, vv in k['keys'].items():
+                    if vv[0] == 'N' or (vv[0] in ('I', 'F', 'B') and not Fraction(vv[1])):
+                        c.count('explicit-falsy:%s=%s' % (kk, vv[0]))
             c.count('scale:' + ('default' if k['scale'] is None else 'len%d/oct%s' % (len(k['scale']['steps']), k['scale']['oct'])))
             for a, v in zip(k['ask'], r['vals']):
                 c.count('value-kind:' + v[0])
@@ -406,6 +611,9 @@ def correspond(ctx):
         else:
             count_tree(c, k['pat'])
             c.count('clock:' + k['clock']); c.count('latency:' + k['latency'])
+            if k.get('ctl'): c.count('controller:' + k['ctl'][0][0])
+            if k.get('raises'): c.count('event-raises-while-played')
+            if not k.get('proto'): c.count('proto:empty')
             c.count('score-length:%d' % min(len(r['msgs']), 12))
             if has_rest(k['pat']): c.count('pattern-with-rests')
             if r['errors']: c.count('impl-logged-error')
@@ -418,7 +626,17 @@ def correspond(ctx):
             items.append(item_pat(k, r, 'patched'))
         keep.append((k, r))
     bad, errs = fw.check_shards(ctx, 'cases', HEADER, items, BODY, shard=max(30, len(items) // 16 + 1), timeout=1200)
-    c.evaluations = len(keep)
+    c.evaluations = len(keep) + getattr(c, 'evaluations_extra', 0)
+    for gid, g in sorted(groups.items()):
+        if len(g) == 3:
+            c.evaluations += 1
+            c.count('same-pattern-object-played-twice')
+            v = twice_violation(g)
+            if v:
+                c.failures.append(Failure('correspondence', 'one pattern object played by two players: ' + v, found_input=True,
+                                          theorem='streams of one pattern are independent',
+                                          replay={'case': g['both'][0], 'both': g['both'][1]['msgs'][:12],
+                                                  'first_alone': g['first'][1]['msgs'][:8], 'second_alone': g['second'][1]['msgs'][:8]}))
     c.rule = ('(1) random sets of explicit pitch/amplitude/duration keys (ints, dyadic floats, Rest durations; 5 scales x 4 tunings '
               'incl. a non-equal one, 24- and 19-step ones and octave ratio 4) -> e(key) for 22 keys compared with ev_call of '
               'coq/model/Event.v (kind int/float exactly, value to 2^-40; midicps/cpsmidi/dbamp/ampdb = the implementation\'s own '
@@ -459,7 +677,7 @@ def close(a, b):
 def oracle_keys(case, res):
     """documented forward chains, recomputed directly; returns a list of violations (text)"""
     keys = {k: v for k, v in case['keys'].items()}
-    p = ref.pitch({k: v for k, v in keys.items() if v[0] in ('I', 'F')}, case.get('scale'))
+    p = ref.pitch({k: v for k, v in keys.items() if v[0] in ('I', 'F', 'B')}, case.get('scale'))
     got = dict(zip(case['ask'], res['vals']))
     bad = []
 
@@ -472,7 +690,7 @@ def oracle_keys(case, res):
         elif not close(Fraction(v[1]), exp):
             bad.append('%s: expected %s, got %s' % (name, float(exp), float(Fraction(v[1]))))
     for k, v in keys.items():
-        if v[0] in ('I', 'F', 'R') and k in got:
+        if v[0] in ('I', 'F', 'R', 'B') and k in got and got[k][0] != 'B':
             chk(k, Fraction(v[1]))          # explicit key precedence
     if 'note' not in keys: chk('note', p['note'])
     if 'midinote' not in keys: chk('midinote', p['midinote'])
@@ -482,7 +700,7 @@ def oracle_keys(case, res):
         y = tabs.get('midicps', {}).get(a)
         if y is not None:
             chk('freq', Fraction(y))
-    numeric = {k: v for k, v in keys.items() if v[0] in ('I', 'F', 'R')}
+    numeric = {k: v for k, v in keys.items() if v[0] in ('I', 'F', 'R', 'B')}
     delta, sustain = ref.durations(numeric)
     if 'delta' not in keys: chk('delta', delta)
     if 'sustain' not in keys: chk('sustain', sustain)
@@ -573,7 +791,8 @@ def search(ctx, failures):
     return found
 
 
-THEOREM_OF = {SIG['rest']: 'player_times', SIG['pdur_dict']: 'pdur_total_duration', SIG['pdur_int']: 'pdur_total_duration',
+THEOREM_OF = {SIG['pdelta_input']: 'streams share no state with their inputs (Pchain feeds every pattern its current input)',
+              SIG['rest']: 'player_times', SIG['pdur_dict']: 'pdur_total_duration', SIG['pdur_int']: 'pdur_total_duration',
               SIG['scale_key']: 'explicit_key_precedence', SIG['scale_tuning']: 'pitch_chain'}
 HOW = ('harness/impl/c14_run.py builds the pattern/event with the real classes (sc3.init("nrt")), registers SynthDefs c14a '
        '(freq amp gate pan), c14b (freq amp pan cutoff), c14c (out freq sustain gate detune dur legato), plays it from a routine '
